@@ -181,6 +181,10 @@ func (c *FnCtx) runTop(rep *FnReport, kf *KnownFindings) (err error) {
 	var args []Val
 	for _, p := range fn.Params {
 		v := c.fresh("arg$"+p.Name(), p.Type(), st)
+		if _, isFn := p.Type().Underlying().(*types.Signature); isFn {
+			// a callback passed as a parameter can be given a footprint: `callback Func.param: pure`
+			v.From = funcKey(fn) + "." + p.Name()
+		}
 		fr.vals[p] = v
 		args = append(args, v)
 	}
